@@ -8,6 +8,7 @@ Decided clauses:
   * R-BOUND update/final buffer writes bounded
 Not decided: digest equality for all messages/chunkings.
 """
+import itertools
 from rules import driver, core, r_wipe
 from rules.core import strip_casts, key
 from props import common, fixtures, hashes
@@ -259,6 +260,184 @@ def loop_save_rule(rep, u, own_file):
     return n
 
 
+def update_coverage(rep, u, h, t):
+    """update(ctx, data, size), traced for every class of (bytes already buffered, size): each input byte is consumed exactly
+    once and in order - either copied to the context buffer (inside it) or compressed in place in whole blocks -, the
+    buffer is compressed exactly when it is full, in-place compression happens only with an empty buffer, and the bytes
+    left in the buffer afterwards are (buffered + size) mod block.  This is the structural half of "however split"."""
+    from rules import r_stride, r_mpt
+    fn = u.fn(t["update"])
+    if fn is None or not fn.has_cfg:
+        raise driver.AnalysisBroken("anchor %s vanished" % t["update"])
+    rep.functions.add(fn.name)
+    BLK = t["blk"] if h != "sha2" else None
+    rec = None
+    pt = u.type(fn.params[0]["t"])
+    rec = u.records.get(u.type(pt["to"]).get("rec")) if pt["k"] == "ptr" else None
+    if rec is None:
+        raise driver.AnalysisBroken("%s: context record not found" % fn.name)
+    boff = [f["off"] // 8 for f in rec["fields"] if f["n"] == "buffer"]
+    if not boff:
+        raise driver.AnalysisBroken("%s: context has no buffer field" % fn.name)
+    CTX, DATA = 0x100000, 0x400000
+    BUF = CTX + boff[0]
+    cn, dn, sn = [p["n"] for p in fn.params[:3]]
+    usage_key = "%s->buffer_usage" % cn if any(f["n"] == "buffer_usage" for f in rec["fields"]) else "%s->count" % cn
+    transforms = {c.get("fn") for _, _, c, _ in fn.calls() if "transform" in (c.get("fn") or "")}
+    n = 0
+    bad = undec = None
+    for blk in ([BLK] if BLK else [64, 128]):
+        for usage in (0, 1, blk // 2, blk - 1):
+            sizes = sorted({1, blk - usage - 1, blk - usage, blk - usage + 1, blk, blk + 1, 2 * blk + 5, 3 * blk - usage, 2 * blk - usage + 7} - {0})
+            for size in [x for x in sizes if x > 0]:
+                pe = r_stride.PE(u, call_default={nm: 0 for nm in transforms})
+                bind = {cn: CTX, dn: DATA, sn: size, usage_key: usage + 3 * blk if usage_key.endswith("count") else usage,
+                        "%s->block_size" % cn: blk}
+                ev, ret = pe.trace(fn, bind, max_steps=20000)
+                what = "%d bytes buffered, update of %d bytes (block %d)" % (usage, size, blk)
+                if isinstance(ret, str):
+                    undec = undec or "%s: %s" % (what, ret)
+                    continue
+                n += 1
+                fill = usage          # bytes in the context buffer
+                pos = 0               # next input byte expected
+                prob = None
+
+                def val(x, b):
+                    return r_mpt.eval_expr(x, {}, pe._hook(b, {}))
+                for e, b in ev:
+                    for x, ps in core.walk(e):
+                        if x.get("k") != "call" or prob:
+                            continue
+                        try:
+                            if x.get("fn") in ("memcpy", "memmove"):
+                                d_, s_, l_ = val(x["args"][0], b), val(x["args"][1], b), val(x["args"][2], b)
+                                if BUF <= d_ < BUF + 4096:
+                                    if d_ - BUF != fill:
+                                        prob = "bytes are copied to buffer offset %d while %d bytes are buffered" % (d_ - BUF, fill)
+                                    elif l_ < 0 or d_ - BUF + l_ > blk:
+                                        prob = "%d bytes are copied to offset %d of the %d-byte block buffer" % (l_, d_ - BUF, blk)
+                                    elif s_ - DATA != pos:
+                                        prob = "input offset %d is buffered while offset %d is next" % (s_ - DATA, pos)
+                                    else:
+                                        fill += l_
+                                        pos += l_
+                            elif x.get("fn") in transforms:
+                                ptrs = [val(a, b) for a in x["args"] if "t" in a and u.type(a["t"])["k"] == "ptr"][1:]
+                                if not ptrs:
+                                    continue
+                                start = ptrs[0]
+                                end = ptrs[1] if len(ptrs) > 1 else start + blk
+                                if BUF <= start < BUF + 4096:
+                                    if fill != blk or start != BUF or end != BUF + blk:
+                                        prob = "the buffer is compressed while it holds %d of %d bytes" % (fill, blk)
+                                    fill = 0
+                                else:
+                                    if fill != 0:
+                                        prob = "input is compressed in place while %d bytes wait in the buffer (order lost)" % fill
+                                    elif start - DATA != pos:
+                                        prob = "in-place compression starts at input offset %d while offset %d is next" % (start - DATA, pos)
+                                    elif (end - start) % blk or end - start <= 0:
+                                        prob = "in-place compression of %d bytes (not whole blocks)" % (end - start)
+                                    elif end - DATA > size:
+                                        prob = "in-place compression reads up to input offset %d of %d" % (end - DATA, size)
+                                    else:
+                                        pos = end - DATA
+                        except (r_mpt.Unknown, KeyError, TypeError):
+                            undec = undec or "%s: an argument at line %s is not computable" % (what, x.get("ln"))
+                if prob is None and pos != size:
+                    prob = "%d of %d input bytes are consumed" % (pos, size)
+                if prob is None and fill != (usage + size) % blk:
+                    prob = "%d bytes stay buffered, expected %d" % (fill, (usage + size) % blk)
+                if prob:
+                    bad = bad or "%s: %s" % (what, prob)
+    desc = "%s consumes every input byte once, in order; buffer writes stay inside the block buffer; the buffer is compressed exactly when full" % fn.name
+    (rep.violated if bad else rep.undecided if undec else rep.proved)("R-SPEC", fn, "update-coverage", desc, bad or undec or "%d (buffered, size) classes" % n)
+    return n
+
+
+def dispatch_rule(rep, u, own_file):
+    """sha2_transform chooses the compression function: the 128-byte-block function for SHA-384/512 contexts and a
+    64-byte-block one for SHA-224/256, whatever the SIMD switch says (evaluated over block size x use_simd)."""
+    from rules import r_stride
+    fn = u.fn("sha2_transform")
+    if fn is None or not fn.has_cfg or fn.relfile() != own_file:
+        return 0
+    rep.functions.add(fn.name)
+    cn = fn.params[0]["n"]
+    callees = {c.get("fn") for _, _, c, _ in fn.calls() if c.get("fn")}
+    n = 0
+    bad = undec = None
+    for blk, simd in itertools.product((64, 128), (0, 1)):
+        pe = r_stride.PE(u, call_default={nm: 0 for nm in callees})
+        ev, ret = pe.trace(fn, {cn: 0x1000, "%s->block_size" % cn: blk, "%s->use_simd" % cn: simd, fn.params[1]["n"]: 0x2000, fn.params[2]["n"]: 0x2000 + 2 * blk})
+        if isinstance(ret, str):
+            undec = undec or "block %d, use_simd %d: %s" % (blk, simd, ret)
+            continue
+        n += 1
+        called = [x.get("fn") for e, b in ev for x, _ in core.walk(e) if x.get("k") == "call" and x.get("fn") in callees]
+        want = "128" if blk == 128 else "64"
+        if len(called) != 1 or want not in called[0]:
+            bad = bad or "block size %d with use_simd=%d is compressed by %s" % (blk, simd, called or "nothing")
+    desc = "sha2_transform hands SHA-384/512 contexts to the 128-byte-block function and SHA-224/256 contexts to a 64-byte-block one, whatever use_simd is"
+    (rep.violated if bad else rep.undecided if undec else rep.proved)("R-SIB", fn, "sha2-dispatch", desc, bad or undec or "%d combinations" % n)
+    return n
+
+
+def final_bounds(rep, u, h, t):
+    """final(ctx, digest), traced for every class of bytes still buffered: the padding writes (0x80, zero fill, length) stay
+    inside the block buffer, and the buffer is compressed only when the padding filled it."""
+    from rules import r_stride, r_mpt
+    fn = u.fn(t["final"])
+    if fn is None or not fn.has_cfg:
+        raise driver.AnalysisBroken("anchor %s vanished" % t["final"])
+    rep.functions.add(fn.name)
+    pt = u.type(fn.params[0]["t"])
+    rec = u.records.get(u.type(pt["to"]).get("rec")) if pt["k"] == "ptr" else None
+    boff = [f["off"] // 8 for f in (rec or {}).get("fields", []) if f["n"] == "buffer"]
+    if not boff:
+        raise driver.AnalysisBroken("%s: context has no buffer field" % fn.name)
+    CTX = 0x100000
+    BUF = CTX + boff[0]
+    cn = fn.params[0]["n"]
+    usage_key = "%s->buffer_usage" % cn if any(f["n"] == "buffer_usage" for f in rec["fields"]) else "%s->count" % cn
+    callees = {c.get("fn") for _, _, c, _ in fn.calls() if c.get("fn") and c.get("fn") not in ("memcpy", "memset", "memmove")}
+    n = 0
+    bad = undec = None
+    for blk in ([t["blk"]] if h != "sha2" else [64, 128]):
+        lenb = 8 if blk == 64 else 16
+        for usage in sorted({0, 1, blk - lenb - 2, blk - lenb - 1, blk - lenb, blk - lenb + 1, blk - 2, blk - 1}):
+            pe = r_stride.PE(u, call_default={nm: 0 for nm in callees})
+            bind = {cn: CTX, usage_key: usage + 2 * blk if usage_key.endswith("count") else usage, "%s->block_size" % cn: blk,
+                    "%s->hash_size" % cn: 32 if blk == 64 else 64, fn.params[1]["n"]: 0x700000}
+            ev, ret = pe.trace(fn, bind, max_steps=20000)
+            what = "%d bytes buffered (block %d)" % (usage, blk)
+            if isinstance(ret, str):
+                undec = undec or "%s: %s" % (what, ret)
+                continue
+            n += 1
+
+            def val(x, b):
+                return r_mpt.eval_expr(x, {}, pe._hook(b, {}))
+            for e, b in ev:
+                for x, ps in core.walk(e):
+                    try:
+                        if x.get("k") == "call" and x.get("fn") in ("memcpy", "memset", "memmove"):
+                            d_, l_ = val(x["args"][0], b), val(x["args"][2], b)
+                            if BUF - 256 <= d_ < BUF + 4096 and (l_ < 0 or not (BUF <= d_ and d_ + l_ <= BUF + blk)):
+                                bad = bad or "%s: %s writes %s bytes at buffer offset %d of %d" % (
+                                    what, x["fn"], ("%d" % l_) if l_ >= 0 else "SIZE_MAX%+d (the length wrapped)" % (l_ + 1), d_ - BUF, blk)
+                        elif x.get("k") == "bin" and x["op"] == "=" and strip_casts(x["x"]).get("k") in ("sub", "un"):
+                            a = pe._addr(strip_casts(x["x"]), lambda z: val(z, b))
+                            if BUF - 256 <= a < BUF + 4096 and not (BUF <= a < BUF + blk):
+                                bad = bad or "%s: a store at buffer offset %d of %d (line %s)" % (what, a - BUF, blk, x.get("ln"))
+                    except (r_mpt.Unknown, KeyError, TypeError):
+                        pass
+    desc = "%s: every padding write stays inside the block buffer, for every number of buffered bytes" % fn.name
+    (rep.violated if bad else rep.undecided if undec else rep.proved)("R-BOUND", fn, "final-padding", desc, bad or undec or "%d classes" % n)
+    return n
+
+
 def run(rep, tier):
     specs = hashes.units(tier)
     us = driver.load_units([s for (_, _, s) in specs])
@@ -289,6 +468,18 @@ def run(rep, tier):
     for (h, lab, s) in specs:
         nls += loop_save_rule(rep, us[s.label], "include/" + hashes.HASHES[h]["hdr"])
     rep.floor("per-block state copies", nls, 2)
+    nuc = 0
+    for (h, lab, s) in specs:
+        nuc += update_coverage(rep, us[s.label], h, hashes.HASHES[h])
+    rep.floor("update (buffered, size) classes", nuc, 100)
+    nfb = 0
+    for (h, lab, s) in specs:
+        nfb += final_bounds(rep, us[s.label], h, hashes.HASHES[h])
+    rep.floor("final (buffered) classes", nfb, 20)
+    nds = 0
+    for (h, lab, s) in specs:
+        nds += dispatch_rule(rep, us[s.label], "include/" + hashes.HASHES[h]["hdr"])
+    rep.floor("sha2_transform dispatch combinations", nds, 4)
     from props import c04_tables, c04_more
     c04_tables.run(rep, specs, us, tier)
     c04_more.run(rep, specs, us, tier)
